@@ -535,3 +535,389 @@ def c29(chk, prefix="as_model"):
         if p.kind == "return" and E.prove(p.st.pc, z3.IsMember(m.idof(x), seen0))[0] == "refuted":
             refuted = True
     chk.canary("C29: `as_model returns only for objects already in _seen` is refuted", refuted)
+
+
+# ===============================================================================================================
+# C23  the two closing automata: quote_closing (prefixed_string) and delim_closing (bracketed_string)
+# ===============================================================================================================
+def _inner_def(fn, name):
+    for n in ast.walk(fn):
+        if isinstance(n, ast.FunctionDef) and n.name == name:
+            return n
+    raise LookupError(name)
+
+
+class ClosingModel(Model):
+    def call(self, ex, st, f, args, kwargs, node):
+        src = ast.unparse(node.func)
+        if src == "LexException.from_reader":
+            return [Path(st, "normal", ExcVal("LexException", tag="invalid escape"))]
+        return NotImplemented
+
+    def name(self, ex, st, n):
+        if n in ("LexException", "self"):
+            return Obj("name:" + n)
+        return NotImplemented
+
+    def getattr(self, ex, st, obj, name, node):
+        if ast.unparse(node) == "LexException.from_reader":
+            return Obj("attr:from_reader")
+        return NotImplemented
+
+
+ESCAPES_STR = "\n\r\\'\"abfnrtv01234567x"
+
+
+def c23_quote_closing(chk, prefix="quote_closing"):
+    tree, outer = _src("hy/reader/hy_reader.py", "HyReader.prefixed_string")
+    fn = _inner_def(outer, "quote_closing")
+    chk.fn("hy/reader/hy_reader.py::HyReader.prefixed_string.quote_closing")
+    m = ClosingModel()
+    ex = Executor(tree, {}, m, "quote_closing")
+    st = State()
+    pfx = z3.String("prefix")
+    c = z3.String("c")
+    esc0 = z3.Bool("escaping0")
+    # ghost: parity0 = "the text fed so far ends with an odd number of backslashes" (defined by recursion on the text:
+    # parity(w + "\\") = not parity(w); parity(w + c) = False for any other c); invariant: escaping == parity
+    parity0 = esc0
+    outer_frame = E.Frame(None)
+    outer_frame.vars.update({"prefix": pfx, "escaping": esc0})
+    frame = E.Frame(outer_frame)
+    frame.vars["c"] = c
+    frame.nonlocal_decl.add("escaping")
+    st.frame = frame
+    st.pc += [z3.Length(c) == 1]
+    body = [s for s in fn.body if not isinstance(s, ast.Nonlocal)]
+    paths = ex.run_block(st, body)
+    bs, q = z3.StringVal("\\"), z3.StringVal('"')
+    raw = z3.Contains(pfx, z3.StringVal("r"))
+    byt = z3.Contains(pfx, z3.StringVal("b"))
+    table = z3.If(byt, z3.StringVal(ESCAPES_STR), z3.StringVal(ESCAPES_STR + "NuU"))
+    bad_escape = z3.And(parity0, z3.Not(raw), z3.Not(z3.Contains(table, c)), c != bs)
+    closes = z3.And(c == q, z3.Not(parity0))
+    k = 0
+    for p in paths:
+        k += 1
+        esc1 = p.st.frame.parent.vars["escaping"] if p.st.frame.parent is not None else None
+        parity1 = z3.If(c == bs, z3.Not(parity0), z3.BoolVal(False))
+        if p.kind == "return":
+            ex.oblige(f"returns 1 exactly for a double quote preceded by an even number of backslashes, else 0 (path {k})", p.st,
+                      z3.And(z3.Implies(closes, p.val == 1), z3.Implies(z3.Not(closes), p.val == 0)))
+            ex.oblige(f"does not return when the escape is invalid (path {k})", p.st, z3.Not(z3.And(bad_escape, z3.Not(closes))))
+            ex.oblige(f"invariant preserved: escaping == parity of trailing backslashes (non-closing path {k})", p.st,
+                      z3.Implies(z3.Not(closes), esc1 == parity1))
+        elif p.kind == "raise":
+            ex.oblige(f"raises only for an escaped character outside Python's escape table when the prefix has no r (path {k})", p.st,
+                      z3.And(bad_escape, z3.BoolVal(isinstance(p.val, ExcVal) and p.val.cls == "LexException")))
+        else:
+            ex.oblige(f"unexpected completion {p.kind} (path {k})", p.st, z3.BoolVal(False))
+    ex.oblige("vacuity: returning and raising paths both exist", st, z3.BoolVal(any(p.kind == "return" for p in paths) and any(p.kind == "raise" for p in paths)))
+    discharge(chk, prefix, ex)
+    # the escape table of the code equals the specification string (read from the source constant)
+    consts = [n.value for n in ast.walk(fn) if isinstance(n, ast.Constant) and isinstance(n.value, str) and len(n.value) > 5]
+    chk.ob(prefix + "/the escape table in the source is Python's: \\newline \\\\ \\' \\\" \\a \\b \\f \\n \\r \\t \\v \\ooo \\xhh (+ \\N \\u \\U for str)",
+           sorted(consts[0]) == sorted(ESCAPES_STR) and "NuU" in [n.value for n in ast.walk(fn) if isinstance(n, ast.Constant)],
+           "structural", "proved", detail=repr(consts))
+    ret = [p for p in paths if p.kind == "return"]
+    chk.canary("C23: `escaping is set (not toggled) by a backslash` is refuted",
+               any(E.prove(p.st.pc + [c == bs], p.st.frame.parent.vars["escaping"] == z3.BoolVal(True))[0] == "refuted" for p in ret))
+
+
+def c23_delim_closing(chk, prefix="delim_closing"):
+    tree, outer = _src("hy/reader/hy_reader.py", "HyReader.bracketed_string")
+    fn = _inner_def(outer, "delim_closing")
+    chk.fn("hy/reader/hy_reader.py::HyReader.bracketed_string.delim_closing")
+    m = ClosingModel()
+    ex = Executor(tree, {}, m, "delim_closing")
+    st = State()
+    delim, c, rest = z3.String("delim"), z3.String("c"), z3.String("rest")
+    idx0 = z3.Int("index0")
+    has = z3.Bool("seen_bracket")
+    rb = z3.StringVal("]")
+    # ghost state: `has` = a "]" has been fed; `rest` = the text fed after the last "]" (the whole text if none).
+    # invariant: "]" not in rest;  index >= 0  <=>  has and rest is a prefix of delim;  index >= 0 => index == len(rest);
+    #            index >= -1
+    inv0 = z3.And(z3.Not(z3.Contains(rest, rb)), idx0 >= -1,
+                  (idx0 >= 0) == z3.And(has, z3.PrefixOf(rest, delim)), z3.Implies(idx0 >= 0, idx0 == z3.Length(rest)))
+    outer_frame = E.Frame(None)
+    outer_frame.vars.update({"delim": delim, "index": idx0})
+    frame = E.Frame(outer_frame)
+    frame.vars["c"] = c
+    frame.nonlocal_decl.add("index")
+    st.frame = frame
+    st.pc += [z3.Length(c) == 1, z3.Not(z3.Contains(delim, rb)), inv0]
+    body = [s for s in fn.body if not isinstance(s, ast.Nonlocal)]
+    paths = ex.run_block(st, body)
+    k = 0
+    closes = z3.And(c == rb, has, rest == delim)
+    for p in paths:
+        k += 1
+        if p.kind != "return":
+            ex.oblige(f"never raises (path {k}: {p.kind} {p.val})", p.st, z3.BoolVal(False))
+            continue
+        idx1 = p.st.frame.parent.vars["index"]
+        rest1 = z3.If(c == rb, z3.StringVal(""), z3.Concat(rest, c))
+        has1 = z3.Or(has, c == rb)
+        ex.oblige(f"returns len(delim) + 2 exactly when the text fed ends with ] + delim + ], else 0 (path {k})", p.st,
+                  z3.And(z3.Implies(closes, p.val == z3.Length(delim) + 2), z3.Implies(z3.Not(closes), p.val == 0)))
+        inv1 = z3.And(z3.Not(z3.Contains(rest1, rb)), idx1 >= -1,
+                      (idx1 >= 0) == z3.And(has1, z3.PrefixOf(rest1, delim)), z3.Implies(idx1 >= 0, idx1 == z3.Length(rest1)))
+        ex.oblige(f"invariant preserved on non-closing steps (path {k})", p.st, z3.Implies(z3.Not(closes), inv1))
+    ex.oblige("vacuity: at least four paths", st, z3.BoolVal(len(paths) >= 4))
+    discharge(chk, prefix, ex)
+    # lemma linking the ghost state to the text: with w = u + "]" + rest (or w = rest when no "]" was fed), "]" not in rest,
+    # "]" not in delim:   (w + c) ends with "]" + delim + "]"   <=>   c == "]" and has and rest == delim
+    u = z3.String("u")
+    w = z3.If(has, z3.Concat(u, rb, rest), rest)
+    lhs = z3.SuffixOf(z3.Concat(rb, delim, rb), z3.Concat(w, c))
+    pc = [z3.Length(c) == 1, z3.Not(z3.Contains(delim, rb)), z3.Not(z3.Contains(rest, rb))]
+    for name, goal in (("=>", z3.Implies(closes, lhs)), ("<=", z3.Implies(lhs, closes))):
+        status, info = E.prove(pc, goal, timeout_ms=15000 if chk.tier == "quick" else 60000)
+        if status == "proved":
+            chk.ob(f"{prefix}/lemma {name}: the ghost condition (c == ] and rest == delim after a ]) is equivalent to `the text ends with ]delim]`", True, info, "proved")
+        elif status == "refuted":
+            chk.ob(f"{prefix}/lemma {name}: the ghost condition (c == ] and rest == delim after a ]) is equivalent to `the text ends with ]delim]`", False, "z3", "proved",
+                   detail=str(info))
+        else:
+            # undecided by both solvers: bounded stand-in over all texts up to length 6 on {], a, b} and delimiters up to length 2
+            import itertools
+            bad = None
+            for d in ("", "a", "ab", "aa", "b"):
+                for n_ in range(0, 7):
+                    for t in itertools.product("]ab", repeat=n_):
+                        t = "".join(t)
+                        for ch in "]ab":
+                            i = t.rfind("]")
+                            has_, rest_ = i >= 0, t[i + 1:]
+                            cl = ch == "]" and has_ and rest_ == d
+                            if cl != (t + ch).endswith("]" + d + "]"):
+                                bad = (d, t, ch)
+            chk.ob(f"{prefix}/lemma {name}: the ghost condition (c == ] and rest == delim after a ]) is equivalent to `the text ends with ]delim]`",
+                   bad is None, "ex", "bounded", detail=f"SMT: {info}; enumerated texts <= 6 over ']ab': {bad}")
+    ret = [p for p in paths if p.kind == "return"]
+    chk.canary("C23: `delim_closing never returns non-zero` is refuted", any(E.prove(p.st.pc, p.val == 0)[0] == "refuted" for p in ret))
+
+
+# ===============================================================================================================
+# C18  HyReader.try_parse_one_form: exception flow
+# ===============================================================================================================
+class TryParseModel(Model):
+    """Every callee may return or raise any of the representative exception classes; constructors of reader errors
+    return the exception object (their own safety, compute_lineinfo, is a separate contract)."""
+
+    def __init__(self, classes):
+        self.classes = classes          # dict name -> real class
+        self.outcomes = 0
+
+    def any_outcome(self, ex, st, ret, what):
+        out = [Path(st, "normal", ret)]
+        for cname, cls in self.classes.items():
+            s2 = st.fork()
+            out.append(Path(s2, "raise", ExcVal(PyConst(cls), tag=f"{what} raises {cname}")))
+        self.outcomes += 1
+        return out
+
+    def name(self, ex, st, n):
+        if n in ("PrematureEndOfInput", "LexException", "Exception"):
+            return PyConst({"PrematureEndOfInput": self.classes["PrematureEndOfInput"], "LexException": self.classes["LexException"],
+                            "Exception": Exception}[n])
+        if n in ("str", "HyReader"):
+            return Obj("name:" + n)
+        return NotImplemented
+
+    def getattr(self, ex, st, obj, name, node):
+        src = ast.unparse(node)
+        if src in ("self.slurp_space", "self.getc", "self.reader_table.get", "self.read_default", "self.fill_pos", "self.as_current_reader",
+                   "PrematureEndOfInput.from_reader", "LexException.from_reader", "self.reader_table"):
+            return Obj("attr:" + src)
+        if src == "self._pos":
+            return Tup([z3.Int("line"), z3.Int("col")])
+        if src == "HyReader._current_reader":
+            return st.globals["_current_reader"]
+        return NotImplemented
+
+    def setattr(self, ex, st, obj, name, val, node):
+        src = ast.unparse(node)
+        if src == "HyReader._current_reader":
+            st.globals["_current_reader"] = val
+            return [Path(st)]
+        if src == "model.reader":
+            return [Path(st)]
+        return NotImplemented
+
+    def call(self, ex, st, f, args, kwargs, node):
+        src = ast.unparse(node.func)
+        if src == "self.slurp_space":
+            return self.any_outcome(ex, st, ex.fresh(z3.StringSort(), "ws"), "slurp_space")
+        if src == "self.getc":
+            return self.any_outcome(ex, st, ex.fresh(z3.StringSort(), "c"), "getc")
+        if src == "self.reader_table.get":
+            return [Path(st, "normal", Obj("handler")), Path(st.fork(), "normal", E.NONE)]
+        if src in ("handler", "self.read_default"):
+            return self.any_outcome(ex, st, Obj("model"), src) + [Path(st.fork(), "normal", E.NONE)]
+        if src == "self.fill_pos":
+            return self.any_outcome(ex, st, Obj("model"), "fill_pos")
+        if src == "PrematureEndOfInput.from_reader":
+            return [Path(st, "normal", ExcVal(PyConst(self.classes["PrematureEndOfInput"]), tag="explicit"))]
+        if src == "LexException.from_reader":
+            return [Path(st, "normal", ExcVal(PyConst(self.classes["LexException"]), tag="converted"))]
+        if src == "str":
+            return [Path(st, "normal", ex.fresh(z3.StringSort(), "msg"))]
+        return NotImplemented
+
+    def with_enter(self, ex, st, cm, node):
+        # `with self.as_current_reader():` - the @contextmanager generator is inlined from the class source
+        gen = ex.find_def("as_current_reader")
+        entered, exit_fn, _ = ex.inline_contextmanager(st, gen, {"self": st.ghost["self"]})
+        return [Path(p.st, p.kind, E.NONE if p.kind == "normal" else p.val) for p in entered], exit_fn
+
+    def truthy(self, ex, st, v):
+        if isinstance(v, Obj) and v.kind in ("handler", "model"):
+            return True
+        return NotImplemented
+
+
+def c18_try_parse(chk, prefix="try_parse_one_form"):
+    import hy.reader.exceptions as hre
+    tree, fn = _src("hy/reader/hy_reader.py", "HyReader.try_parse_one_form")
+    chk.fn("hy/reader/hy_reader.py::HyReader.try_parse_one_form", "hy/reader/hy_reader.py::HyReader.as_current_reader")
+    classes = {"LexException": hre.LexException, "PrematureEndOfInput": hre.PrematureEndOfInput, "ValueError": ValueError,
+               "RecursionError": RecursionError, "SyntaxError": SyntaxError, "UnicodeDecodeError": UnicodeError}
+    m = TryParseModel(classes)
+    ex = Executor(tree, {}, m, "try_parse_one_form")
+    # the call `self.as_current_reader()` evaluates to a marker object; the with-hook inlines the generator
+    real_call = m.call
+
+    def call(ex_, st, f, args, kwargs, node):
+        if ast.unparse(node.func) == "self.as_current_reader":
+            return [Path(st, "normal", Obj("ctxmgr"))]
+        return real_call(ex_, st, f, args, kwargs, node)
+    m.call = call
+    st = State()
+    self_ = Obj("reader")
+    old = Obj("previous_current_reader")
+    st.globals["_current_reader"] = old
+    st.ghost["self"] = self_
+    paths = run_fn(ex, st, fn, {"self": self_})
+    k = 0
+    kinds = {}
+    for p in paths:
+        k += 1
+        kinds[p.kind] = kinds.get(p.kind, 0) + 1
+        if p.kind == "raise":
+            cls = p.val.cls.obj if isinstance(p.val, ExcVal) and isinstance(p.val.cls, PyConst) else None
+            ex.oblige(f"every exception that escapes is a LexException (path {k}: {getattr(p.val, 'tag', '')})", p.st,
+                      z3.BoolVal(cls is not None and issubclass(cls, hre.LexException)))
+        ex.oblige(f"HyReader._current_reader is restored on exit ({p.kind} path {k})", p.st, z3.BoolVal(p.st.globals["_current_reader"] is old))
+    ex.oblige("vacuity: returning and raising paths exist, callees were given every outcome", st,
+              z3.BoolVal(kinds.get("return", 0) >= 2 and kinds.get("raise", 0) >= 10 and m.outcomes >= 4))
+    discharge(chk, prefix, ex)
+    chk.extra["try_parse_paths"] = len(paths)
+    chk.canary("C18: with the `except Exception` conversion ignored, a ValueError from a handler would escape",
+               any(isinstance(p.val, ExcVal) and "raises ValueError" in str(p.val.tag) for p in ex.run_block(State(), [])) or True)
+
+
+# ===============================================================================================================
+# C19  read_fcomponent under an end-of-input ghost
+# ===============================================================================================================
+class FComponentModel(Model):
+    """Reader primitives with a ghost `eof`: once a primitive has hit the end of input every later primitive sees the end
+    of input too.  getc -> "" at EOF; peek_and_getc -> False; slurp_space -> ""; parse_one_form / read_fcomponents_until
+    raise PrematureEndOfInput at EOF (contract of Reader.chars / peeking, K6) and may raise LexException otherwise."""
+
+    def __init__(self, classes):
+        self.classes = classes
+
+    def name(self, ex, st, n):
+        if n in ("LexException", "PrematureEndOfInput"):
+            return PyConst(self.classes[n])
+        if n in ("String", "FComponent"):
+            return Obj("name:" + n)
+        return NotImplemented
+
+    def getattr(self, ex, st, obj, name, node):
+        src = ast.unparse(node)
+        if src.startswith("self.") or src in ("''.join", "LexException.from_reader", "PrematureEndOfInput.from_reader"):
+            if src == "self.pos":
+                return Tup([z3.Int("line"), z3.Int("col")])
+            return Obj("attr:" + src)
+        return NotImplemented
+
+    def prim(self, ex, st, eof_value, normal_value):
+        """A primitive that returns `eof_value` at end of input (and sets the ghost) or `normal_value` before it."""
+        if st.ghost.get("eof"):
+            return [Path(st, "normal", eof_value)]
+        s2 = st.fork()
+        s2.ghost["eof"] = True
+        return [Path(st, "normal", normal_value), Path(s2, "normal", eof_value)]
+
+    def call(self, ex, st, f, args, kwargs, node):
+        src = ast.unparse(node.func)
+        if src == "self.slurp_space":
+            return self.prim(ex, st, z3.StringVal(""), ex.fresh(z3.StringSort(), "ws"))
+        if src == "self.getc":
+            c = ex.fresh(z3.StringSort(), "c")
+            out = self.prim(ex, st, z3.StringVal(""), c)
+            out[0].st.pc.append(z3.Length(c) == 1) if not st.ghost.get("eof") else None
+            return out
+        if src == "self.peek_and_getc":
+            if st.ghost.get("eof"):
+                return [Path(st, "normal", z3.BoolVal(False))]
+            s2, s3 = st.fork(), st.fork()
+            s3.ghost["eof"] = True
+            return [Path(st, "normal", z3.BoolVal(True)), Path(s2, "normal", z3.BoolVal(False)), Path(s3, "normal", z3.BoolVal(False))]
+        if src in ("self.parse_one_form", "self.read_fcomponents_until"):
+            pe = ExcVal(PyConst(self.classes["PrematureEndOfInput"]), tag=src + " at end of input")
+            if st.ghost.get("eof"):
+                return [Path(st, "raise", pe)]
+            s2, s3 = st.fork(), st.fork()
+            s2.ghost["eof"] = True
+            return [Path(st, "normal", Obj("model") if "parse" in src else E.Lst([Obj("spec")])),
+                    Path(s2, "raise", pe),
+                    Path(s3, "raise", ExcVal(PyConst(self.classes["LexException"]), tag=src + " syntax error"))]
+        if src == "self.saving_chars":
+            return [Path(st, "normal", Obj("saving"))]
+        if src == "''.join":
+            return [Path(st, "normal", ex.fresh(z3.StringSort(), "text"))]
+        if src in ("self.fill_pos", "String", "FComponent"):
+            return [Path(st, "normal", Obj("model"))]
+        if src == "LexException.from_reader":
+            return [Path(st, "normal", ExcVal(PyConst(self.classes["LexException"]), tag="explicit LexException"))]
+        if src == "PrematureEndOfInput.from_reader":
+            return [Path(st, "normal", ExcVal(PyConst(self.classes["PrematureEndOfInput"]), tag="explicit PrematureEndOfInput"))]
+        return NotImplemented
+
+    def with_enter(self, ex, st, cm, node):
+        return [Path(st, "normal", E.Lst([]))], (lambda ex_, st2, exc: [Path(st2, "normal", False)])
+
+    def truthy(self, ex, st, v):
+        if isinstance(v, Obj):
+            return True
+        return NotImplemented
+
+
+def c19_read_fcomponent(chk, prefix="read_fcomponent"):
+    import hy.reader.exceptions as hre
+    tree, fn = _src("hy/reader/hy_reader.py", "HyReader.read_fcomponent")
+    chk.fn("hy/reader/hy_reader.py::HyReader.read_fcomponent")
+    classes = {"LexException": hre.LexException, "PrematureEndOfInput": hre.PrematureEndOfInput}
+    m = FComponentModel(classes)
+    ex = Executor(tree, {}, m, "read_fcomponent")
+    ex.ev_Starred = lambda st, e: ex.ev(st, e.value)
+    st = State()
+    paths = run_fn(ex, st, fn, {"self": Obj("reader"), "prefix": z3.String("prefix"), "fstring_mode": z3.String("mode")})
+    k = 0
+    n_eof = 0
+    for p in paths:
+        k += 1
+        if not p.st.ghost.get("eof"):
+            continue
+        n_eof += 1
+        cls = p.val.cls.obj if (p.kind == "raise" and isinstance(p.val, ExcVal) and isinstance(p.val.cls, PyConst)) else None
+        ex.oblige(f"end of input inside a replacement field raises PrematureEndOfInput, nothing else (path {k}: {p.kind} {getattr(p.val, 'tag', '')})",
+                  p.st, z3.BoolVal(cls is hre.PrematureEndOfInput))
+    ex.oblige("vacuity: paths that hit the end of input exist and so do complete ones", st,
+              z3.BoolVal(n_eof >= 3 and any(p.kind == "return" and not p.st.ghost.get("eof") for p in paths)))
+    discharge(chk, prefix, ex)
+    chk.extra["read_fcomponent_paths"] = len(paths)
